@@ -102,7 +102,9 @@ class Deep:
     def __shutdown_step(name, step):
         try:
             step()
-        except Exception:
+        except BaseException:
+            # (a plugin that hands work to the agent while delivery is closed gets an IllegalStateException, which is
+            # not an Exception: that is still its own problem, the remaining steps are done)
             deep.logging.exception("Failed to shutdown %s", name)
 
     def register_tracepoint(self, path: str, line: int, args: Dict[str, str] = None,
